@@ -145,6 +145,19 @@ def run(tier, seed):
     fixed.append(('IF((IF1=0),"z","nz")', ['if3', 'eq', 'ref', '3', 'lit', 'I0', 'lit', core.enc('z'), 'lit', core.enc('nz')]))
     fixed.append(('IFERROR((10/IF2),"n/a")', ['iferr', 'div', 'lit', 'I10', 'ref', '3', 'lit', core.enc('n/a')]))
     fixed.append(('(1+IF(IF2,100,IF((IF1=7),20,30)))', ['add', 'lit', 'I1', 'if3', 'ref', '3', 'lit', 'I100', 'if3', 'eq', 'ref', '3', 'lit', 'I7', 'lit', 'I20', 'lit', 'I30']))
+    # conditions that START with a literal but are not a literal (A1 = 1, A2 = 0, A3 = 5): the whole condition decides
+    E = core.enc
+    fixed.append(('IF(1=A3,"one","other")', ['if3', 'eq', 'lit', 'I1', 'ref', '2', 'lit', E('one'), 'lit', E('other')]))
+    fixed.append(('IF(5=A3,"five","other")', ['if3', 'eq', 'lit', 'I5', 'ref', '2', 'lit', E('five'), 'lit', E('other')]))
+    fixed.append(('IF(0=A2,"zero","other")', ['if3', 'eq', 'lit', 'I0', 'ref', '1', 'lit', E('zero'), 'lit', E('other')]))
+    fixed.append(('IF(0+A1,"rest","none")', ['if3', 'add', 'lit', 'I0', 'ref', '0', 'lit', E('rest'), 'lit', E('none')]))
+    fixed.append(('IF(1*A2,"t","f")', ['if3', 'mul', 'lit', 'I1', 'ref', '1', 'lit', E('t'), 'lit', E('f')]))
+    fixed.append(('IF(TRUE=A15,"t","f")', ['if3', 'eq', 'lit', 'T', 'ref', '14', 'lit', E('t'), 'lit', E('f')]))
+    fixed.append(('IF(FALSE=A15,"t","f")', ['if3', 'eq', 'lit', 'F', 'ref', '14', 'lit', E('t'), 'lit', E('f')]))
+    fixed.append(('(1+IF(0=A1,10,IF(1=A2,20,30)))', ['add', 'lit', 'I1', 'if3', 'eq', 'lit', 'I0', 'ref', '0', 'lit', 'I10', 'if3', 'eq', 'lit', 'I1', 'ref', '1', 'lit', 'I20', 'lit', 'I30']))
+    fixed.append(('IFERROR(IF(0+A1,(1/0),"neg"),"err")', ['iferr', 'if3', 'add', 'lit', 'I0', 'ref', '0', 'div', 'lit', 'I1', 'lit', 'I0', 'lit', E('neg'), 'lit', E('err')]))
+    fixed.append(('IF(0+A1,"only")', ['if2', 'add', 'lit', 'I0', 'ref', '0', 'lit', E('only')]))
+    fixed.append(('IFS(0+A1,"first",TRUE,"second")', ['ifs', '2', 'add', 'lit', 'I0', 'ref', '0', 'lit', E('first'), 'lit', 'T', 'lit', E('second')]))
     for txt, toks in fixed:
         items.append((txt, toks))
         seen.add(txt)
